@@ -772,29 +772,35 @@ func topLevelDefers(fd *ast.FuncDecl) map[*ast.DeferStmt]bool {
 	if fd.Body == nil {
 		return out
 	}
-	assigned := map[string]bool{}
+	// last position at which each identifier is (re)assigned or has its address taken
+	assignedAt := map[string]token.Pos{}
+	note := func(name string, at token.Pos) {
+		if at > assignedAt[name] {
+			assignedAt[name] = at
+		}
+	}
 	ast.Inspect(fd.Body, func(n ast.Node) bool {
 		switch x := n.(type) {
 		case *ast.AssignStmt:
 			for _, l := range x.Lhs {
 				if id, ok := l.(*ast.Ident); ok {
-					assigned[id.Name] = true
+					note(id.Name, x.Pos())
 				}
 			}
 		case *ast.IncDecStmt:
 			if id, ok := x.X.(*ast.Ident); ok {
-				assigned[id.Name] = true
+				note(id.Name, x.Pos())
 			}
 		case *ast.UnaryExpr:
 			if x.Op == token.AND {
 				if id, ok := x.X.(*ast.Ident); ok {
-					assigned[id.Name] = true
+					note(id.Name, token.Pos(1<<40)) // address taken: may change at any time
 				}
 			}
 		case *ast.RangeStmt:
 			for _, e := range []ast.Expr{x.Key, x.Value} {
 				if id, ok := e.(*ast.Ident); ok {
-					assigned[id.Name] = true
+					note(id.Name, x.End())
 				}
 			}
 		}
@@ -804,7 +810,7 @@ func topLevelDefers(fd *ast.FuncDecl) map[*ast.DeferStmt]bool {
 	if fd.Type.Results != nil {
 		for _, f := range fd.Type.Results.List {
 			for _, nm := range f.Names {
-				assigned[nm.Name] = true
+				note(nm.Name, token.Pos(1<<40))
 			}
 		}
 	}
@@ -852,7 +858,8 @@ func topLevelDefers(fd *ast.FuncDecl) map[*ast.DeferStmt]bool {
 			ast.Inspect(d.Call, func(n ast.Node) bool {
 				switch x := n.(type) {
 				case *ast.Ident:
-					if assigned[x.Name] {
+					// assigned after the defer statement: the value at the return sites could differ
+					if assignedAt[x.Name] > d.Pos() {
 						okExpr = false
 					}
 				case *ast.CallExpr:
